@@ -17,12 +17,12 @@ EXTENDS Gen_C09, FindingsC09
 (* (LET d == TheDoc: TLC evaluates a LET-bound value once per state, a plain definition  *)
 (* at every use; DesignOK evaluates the three checks in one pass over the requests and    *)
 (* prints the request and the names of the failed checks before it fails)                 *)
-Classified(d, r, router, o) == LET f == Failed(d, r, o) IN f = {} \/ Class(d, r, router, o, f) # "none"
+Classified(d, r, router, o) == LET f == FailedFor(router, d, r, o) IN f = {} \/ Class(d, r, router, o, f) # "none"
 
 DFailed(d, r) ==
    (IF Satisfiable(d, r) THEN {} ELSE {"ContractSatisfiable"})
    \cup (IF /\ Failed(d, r, MuxObs(d, r, TRUE, TRUE)) = {}
-            /\ HasOverride(d) \/ Failed(d, r, LegacyObs(d, r, TRUE, TRUE, TRUE)) = {}
+            /\ HasOverride(d) \/ FailedFor("l", d, r, LegacyObs(d, r, TRUE, TRUE, TRUE)) = {}
          THEN {} ELSE {"RepairedRefines"})
    \cup (IF /\ Classified(d, r, "g", MuxObs(d, r, FALSE, FALSE))
             /\ Classified(d, r, "l", LegacyObs(d, r, FALSE, FALSE, FALSE))
@@ -37,5 +37,5 @@ DesignOK ==
 PinnedRefines ==
    Complete => LET d == TheDoc IN
                \A r \in Requests(d) : /\ Failed(d, r, MuxObs(d, r, FALSE, FALSE)) = {}
-                                      /\ Failed(d, r, LegacyObs(d, r, FALSE, FALSE, FALSE)) = {}
+                                      /\ FailedFor("l", d, r, LegacyObs(d, r, FALSE, FALSE, FALSE)) = {}
 =============================================================================
